@@ -6,6 +6,9 @@ From CB Require Import Gen Machine MachineFacts.
 Import ListNotations.
 Open Scope Z_scope.
 
+(* computed examples run the instance that publishes the records [rec_of] *)
+#[local] Existing Instance std_rec.
+
 (* once valid (version and generation non-zero) the header stays valid under every writer step,
    hence at every crash point (a crash stores nothing) *)
 Theorem C04_valid_step : forall c w r k w' it,
@@ -60,6 +63,9 @@ Proof. eexists _, _. split; vm_compute; reflexivity. Qed.
 From CB Require Import SeqlockInv SeqlockRA SeqlockFresh.
 Open Scope Z_scope.
 
+Section General.
+Context {RF : RecFun}.
+
 Theorem C04_restarted_publications_seen : forall c ts m o j r q e, safe_cfg c = true -> (0 < c_retries c)%N ->
   Forall real_token ts -> m_run (m_init c) ts = (m, o) ->
   nth_error (m_rs m) j = Some r -> r_pc r = RIdle ->
@@ -67,7 +73,7 @@ Theorem C04_restarted_publications_seen : forall c ts m o j r q e, safe_cfg c = 
   exists k m' pre ret r', (k <= c_cells c + 4)%nat /\
     m_run m (repeat (TR j None) k) = (m', pre ++ [ORet j ret (r_cache r')]) /\ Forall is_access pre /\
     nth_error (m_rs m') j = Some r' /\ r_pc r' = RIdle /\ m_w m' = m_w m /\
-    ((ret = RetFresh /\ r_cache r' = rec_of (c_cells c) (e_att e) /\ r_cache_gen r' = e_val e) \/
+    ((ret = RetFresh /\ r_cache r' = recf (c_cells c) (e_att e) /\ r_cache_gen r' = e_val e) \/
      (ret = RetCache /\ r_cache r' = r_cache r /\ e_val e = r_cache_gen r)).
 Proof. exact fresh_machine. Qed.
 
@@ -76,6 +82,8 @@ Proof. exact fresh_machine. Qed.
 Theorem C04_never_emptied_under_clients : forall c ts m o, safe_cfg c = true -> Forall real_token ts ->
   m_run (m_init c) ts = (m, o) -> m_rs m <> [] -> header_valid (w_log (m_w m)) = true.
 Proof. intros c ts m o Hs Hts R. exact (F_valid _ _ (m_run_F c Hs ts (m_init c) m o (MInvF_init c) Hts R)). Qed.
+
+End General.
 
 (* ---------------------------------------------------------------------------------------------
    Death while the segment file is being (re-)created: ShmWriter::wipe truncates the file and
